@@ -189,24 +189,27 @@ def cont_cases(g: Any, res: Optional[Result] = None) -> Iterator[dict[str, Any]]
         # second loops: (node, remembered position still documented afterwards?)
         seconds: list[tuple[Optional[dict[str, Any]], bool]] = []
         for lim2, rev2 in itertools.product([None, -1] + list(range(0, n + 2)), (False, True)):
-            seconds.append((M.for_("i", c, body, limit=M.arg(lim2, "var"), offset="continue", rev=rev2, else_=E),
-                            lim2 is None or lim2 >= 0))
+            seconds.append((M.for_("i", c, body, limit=M.arg(lim2, "var"), offset="continue", rev=rev2, else_=E), True))
         seconds.append((M.for_("i", c, body, offset="'continue'", else_=E), True))
         seconds.append((M.for_("i", c, body, limit=M.arg(1), offset=M.arg(1), else_=E), True))
         seconds.append((M.for_("i", other, _cont_body(other), limit=M.arg(1), else_=E), True))
+        # a negative limit at a non-negative start visits nothing: the loop "left off" where it started
+        seconds.append((M.for_("i", c, body, limit=M.arg(-1), offset=M.arg(2), else_=E), True))
+        # after a negative *offset* the reference implementation (from + items kept) and the literal reading
+        # of the docs (index after the last visited item) disagree -> successors are not decided here
         seconds.append((M.for_("i", c, body, limit=M.arg(2), offset=M.arg(-1), else_=E), False))
         thirds = [M.for_("i", c, body, offset="continue", else_=E),
                   M.for_("i", c, body, limit=M.arg(1, "strvar"), offset="continue", rev=True, else_=E)]
         sep = M.text("|")
         for off1 in [None, "continue"] + list(range(0, n + 2)) + [HUGE]:
             o1 = off1 if (off1 is None or isinstance(off1, str)) else M.arg(off1, lf)
-            for lim1 in [None] + list(range(0, n + 2)) + [HUGE]:
+            for lim1 in [None, -2] + list(range(0, n + 2)) + [HUGE]:
                 if lim1 is None and (off1 is None or isinstance(off1, str)) and lf != "lit":
                     continue  # no argument carries a form: already covered by the "lit" group
                 first = M.for_("i", c, body, limit=M.arg(lim1, lf), offset=o1, rev=rev1, else_=E)
                 for second, documented in seconds:
                     if not documented:
-                        # "where a previous loop left off" is documented for ordinary slices only
+                        # "where a previous loop left off" is not decided after a negative offset
                         excluded(len(thirds))
                         yield prog([first, sep, second], ss)
                         continue
@@ -353,6 +356,7 @@ def cases_of(g: Any, res: Optional[Result] = None) -> Iterator[dict[str, Any]]:
 # execution on the real engine
 # ---------------------------------------------------------------------------
 _ENVS: dict[bool, Any] = {}
+_PARSED: dict[tuple[bool, str], Any] = {}
 
 
 def get_env(string_sequences: bool) -> Any:
@@ -369,6 +373,7 @@ def fresh_engine() -> None:
     from mc.util import reset_memo
 
     _ENVS.clear()
+    _PARSED.clear()
     reset_memo()
 
 
@@ -377,8 +382,14 @@ def run_real(p: dict[str, Any], modes: tuple[str, ...] = ("sync", "async")) -> t
     from mc import util as U
 
     src, data = M.to_source(p)
-    env = get_env(bool(p["flags"].get("string_sequences")))
-    parsed = U.parse(env, src)
+    ss = bool(p["flags"].get("string_sequences"))
+    # Variable-form arguments give the same source for many data sets: parse it once per shard
+    # (parsing is deterministic; a bound template is meant to be rendered repeatedly).
+    parsed = _PARSED.get((ss, src))
+    if parsed is None:
+        if len(_PARSED) > 4000:
+            _PARSED.clear()
+        parsed = _PARSED[(ss, src)] = U.parse(get_env(ss), src)
     outs: dict[str, Any] = {}
     for mode in modes:
         if not parsed.ok:
@@ -524,8 +535,10 @@ class C13(Check):
         "string without string_sequences: docs ('can not be looped over') and reference behaviour (one item) are "
         "both accepted",
         "tablerow over nothing: only 'no cell is rendered' is required, the <tr> skeleton is unspecified",
-        "offset:continue is checked only between loops with the same identifier and iterable, after loops whose "
-        "limit/offset were non-negative, and never across tablerow; after break only index/index0/first are compared",
+        "offset:continue is checked only between loops with the same identifier and iterable, never after a loop "
+        "with a negative offset (reference implementation and docs disagree on the remembered position), never "
+        "after a loop that used break, and never across tablerow; inside a loop that breaks only index/index0/first "
+        "are compared",
         "not generated (outside the stated domain): nil/undefined/integer iterables, non-integer limits, cols <= 0, "
         "break/continue directly inside tablerow, reversed on tablerow",
     ]
@@ -541,9 +554,10 @@ class C13(Check):
             "forms": "literal, variable, string literal, string variable (all 16 limit x offset pairs)",
             "cols": "absent, 1..len+1 (literal, variable)",
             "nesting": "depth 2 (lengths 0..%d) and depth 3 (lengths 0..%d)" % ((3, 2) if tier == "quick" else (5, 3)),
-            "continue_sequences": "3 loops: first (offset absent/continue/0..len+1/10**30) x (limit absent/0..len+1/10**30) "
+            "continue_sequences": "3 loops: first (offset absent/continue/0..len+1/10**30) x (limit absent/-2/0..len+1/10**30) "
                                   "x reversed; second continue x limit {absent,-1,0..len+1} x reversed, quoted continue, "
-                                  "explicit offset, other iterable; third continue x {no limit, limit 1 reversed}; "
+                                  "explicit offsets (incl. negative limit), other iterable; third continue x {no limit, "
+                                  "limit 1 reversed}; "
                                   "plus an inner continue loop re-executed 1..3 times",
             "modes": "render and render_async",
         }
